@@ -63,6 +63,8 @@ def gen_case(rng, index, tier):
         case['days'] = rng.choice([0, 1, 2, 3])
     elif cmd == 'rm':
         case['pattern'] = rng.choice(['*', 'e[0-2]*', 'e1*', '*x', 'e*'])
+    case['seed'] = rng.getrandbits(30)
+    case['kills'] = 0 if tier == 'quick' else rng.choice([0, 0, 3])
     return case
 
 
@@ -121,6 +123,81 @@ def run_case(case):
         out['nontrivial'] = False
         out['verdict'] = 'ok'
         return out
+    def judge_state(wk, rk, a0, a1):
+        obs['crash_states'] = obs.get('crash_states', 0) + 1
+        ev = rk.crash
+        if ev:
+            obs['crash_before_' + ev['op']] = obs.get('crash_before_' + ev['op'], 0) + 1
+        n0 = putcheck.norm_sig(a0)
+        n1 = putcheck.norm_sig(a1)
+
+        def viol(mech, **kw):
+            d = {'crash_event': rk.crash, 'cmd': cmd, 'args': args,
+                 'stdin': stdin.decode()}
+            d.update(kw)
+            out['violations'].append({'mechanism': mech, 'detail': d})
+
+        # (1) no NEW orphan: a payload that had an info still has it, and
+        # nothing new sits under files/ without an info of its own name
+        for e in ents:
+            ik, pk = trashworld.pair_keys(e)
+            if pk in n1 and ik not in n1:
+                viol('payload-stranded-without-info/%s' % cmd, entry=e)
+        old_orphans = set(q for q in n0 if putcheck.is_payload_root(q) and
+                          putcheck.info_for_payload(q) not in n0)
+        for q in n1:
+            if putcheck.is_payload_root(q) and q not in old_orphans and \
+                    putcheck.info_for_payload(q) not in n1 and \
+                    any(q.startswith(t + '/') for t in case['trashes']) and \
+                    not any(q == trashworld.pair_keys(e)[1] for e in ents):
+                viol('new-payload-without-info-under-files/%s' % cmd, path=q)
+        # (2) an entry being restored is complete somewhere
+        if cmd == 'restore':
+            for e in ents:
+                ik, pk = trashworld.pair_keys(e)
+                pay0 = snap.subtree(n0, pk)
+                in_trash = snap.subtree(n1, pk) == pay0
+                at_dest = same_payload(snap.subtree(n1, e['loc']), pay0)
+                if not in_trash and not at_dest:
+                    viol('restored-entry-complete-nowhere', entry=e,
+                         trash=snap.fmt_diff(snap.sig_diff(pay0, snap.subtree(n1, pk)), 4),
+                         dest=snap.fmt_diff(snap.sig_diff(pay0, snap.subtree(n1, e['loc'])), 4))
+        # (3) re-run to completion
+        if cmd == 'restore':
+            r2 = run.run(wk, 'empty', [], stdin=b'',
+                         env={'TRASH_DATE': '2099-01-01T00:00:00'})
+            a2 = wk.snapshot()
+            left = [q for q in a2 if (putcheck.is_payload_root(q) or
+                                      putcheck.base(putcheck.parent(q)) == 'info')
+                    and any(q.startswith(t + '/') for t in case['trashes'])]
+            if left:
+                viol('leftovers-of-killed-restore-cannot-be-purged',
+                     left=left[:6], rerun=r2.brief())
+            else:
+                obs['reruns_completed'] = obs.get('reruns_completed', 0) + 1
+        else:
+            r2 = run.run(wk, name, args, stdin=b'')
+            a2 = wk.snapshot()
+            bad = []
+            for e, rs in zip(ents, ref_states):
+                st = trashworld.entry_state(a0, a2, e)
+                if rs == 'gone' and st != 'gone':
+                    bad.append((e['name'], st))
+                if rs == 'intact' and st != 'intact':
+                    bad.append((e['name'], 'kept-entry-' + st))
+            n2 = putcheck.norm_sig(a2)
+            left = [q for q in n2 if putcheck.is_payload_root(q) and
+                    q not in old_orphans and
+                    putcheck.info_for_payload(q) not in n2 and
+                    any(q.startswith(t + '/') for t in case['trashes'])]
+            if left:
+                bad.append(('stranded', left[:4]))
+            if bad:
+                viol('rerun-does-not-complete-the-purge/%s' % cmd, bad=bad,
+                     rerun=r2.brief())
+            else:
+                obs['reruns_completed'] = obs.get('reruns_completed', 0) + 1
+
     for k in ks:
         wk, rk, a0, a1 = sc.execute({'crash_before': k})
         try:
@@ -133,82 +210,26 @@ def run_case(case):
                 out['verdict'] = 'inconclusive'
                 out['why'] = 'non-deterministic prefix at crash point %d' % k
                 return out
-            obs['crash_states'] = obs.get('crash_states', 0) + 1
-            ev = rk.crash
-            obs['crash_before_' + ev['op']] = obs.get('crash_before_' + ev['op'], 0) + 1
-            n0 = putcheck.norm_sig(a0)
-            n1 = putcheck.norm_sig(a1)
-
-            def viol(mech, **kw):
-                d = {'crash_event': rk.crash, 'cmd': cmd, 'args': args,
-                     'stdin': stdin.decode()}
-                d.update(kw)
-                out['violations'].append({'mechanism': mech, 'detail': d})
-
-            # (1) no NEW orphan: a payload that had an info still has it, and
-            # nothing new sits under files/ without an info of its own name
-            for e in ents:
-                ik, pk = trashworld.pair_keys(e)
-                if pk in n1 and ik not in n1:
-                    viol('payload-stranded-without-info/%s' % cmd, entry=e)
-            old_orphans = set(q for q in n0 if putcheck.is_payload_root(q) and
-                              putcheck.info_for_payload(q) not in n0)
-            for q in n1:
-                if putcheck.is_payload_root(q) and q not in old_orphans and \
-                        putcheck.info_for_payload(q) not in n1 and \
-                        any(q.startswith(t + '/') for t in case['trashes']) and \
-                        not any(q == trashworld.pair_keys(e)[1] for e in ents):
-                    viol('new-payload-without-info-under-files/%s' % cmd, path=q)
-            # (2) an entry being restored is complete somewhere
-            if cmd == 'restore':
-                for e in ents:
-                    ik, pk = trashworld.pair_keys(e)
-                    pay0 = snap.subtree(n0, pk)
-                    in_trash = snap.subtree(n1, pk) == pay0
-                    at_dest = same_payload(snap.subtree(n1, e['loc']), pay0)
-                    if not in_trash and not at_dest:
-                        viol('restored-entry-complete-nowhere', entry=e,
-                             trash=snap.fmt_diff(snap.sig_diff(pay0, snap.subtree(n1, pk)), 4),
-                             dest=snap.fmt_diff(snap.sig_diff(pay0, snap.subtree(n1, e['loc'])), 4))
-            # (3) re-run to completion
-            if cmd == 'restore':
-                r2 = run.run(wk, 'empty', [], stdin=b'',
-                             env={'TRASH_DATE': '2099-01-01T00:00:00'})
-                a2 = wk.snapshot()
-                left = [q for q in a2 if (putcheck.is_payload_root(q) or
-                                          putcheck.base(putcheck.parent(q)) == 'info')
-                        and any(q.startswith(t + '/') for t in case['trashes'])]
-                if left:
-                    viol('leftovers-of-killed-restore-cannot-be-purged',
-                         left=left[:6], rerun=r2.brief())
-                else:
-                    obs['reruns_completed'] = obs.get('reruns_completed', 0) + 1
-            else:
-                r2 = run.run(wk, name, args, stdin=b'')
-                a2 = wk.snapshot()
-                bad = []
-                for e, rs in zip(ents, ref_states):
-                    st = trashworld.entry_state(a0, a2, e)
-                    if rs == 'gone' and st != 'gone':
-                        bad.append((e['name'], st))
-                    if rs == 'intact' and st != 'intact':
-                        bad.append((e['name'], 'kept-entry-' + st))
-                n2 = putcheck.norm_sig(a2)
-                left = [q for q in n2 if putcheck.is_payload_root(q) and
-                        q not in old_orphans and
-                        putcheck.info_for_payload(q) not in n2 and
-                        any(q.startswith(t + '/') for t in case['trashes'])]
-                if left:
-                    bad.append(('stranded', left[:4]))
-                if bad:
-                    viol('rerun-does-not-complete-the-purge/%s' % cmd, bad=bad,
-                         rerun=r2.brief())
-                else:
-                    obs['reruns_completed'] = obs.get('reruns_completed', 0) + 1
+            judge_state(wk, rk, a0, a1)
         finally:
             wk.destroy()
         if len(out['violations']) > 3:
             break
+    # ---- real SIGKILL at random instants (thorough tier)
+    import random as _random
+    krng = _random.Random(case.get('seed', 1))
+    for _ in range(case.get('kills', 0)):
+        delay_us = krng.choice([500, 1000, 2000])
+        span = len(ks) * delay_us / 1e6
+        wk, rk, a0, a1, killed = inject.sigkill_run(sc, delay_us,
+                                                    krng.random() * span, krng)
+        try:
+            obs['sigkills'] = obs.get('sigkills', 0) + 1
+            if rk.signal == 9:
+                obs['sigkills_landed_mid_run'] = obs.get('sigkills_landed_mid_run', 0) + 1
+            judge_state(wk, rk, a0, a1)
+        finally:
+            wk.destroy()
     obs['distinct_crash_points'] = len(ks)
     out['nontrivial'] = True
     out['sample_obs'] = {'cmd': cmd, 'mutating_events': len(ks),
